@@ -189,6 +189,12 @@ def histories(tier, rnd):
                 out.append({"label": f"{tag}: clone-diverge {a} | {b} | {c}", "endian": endian, "backing": backing,
                             "plan": [("store", "m", base + a[1], a[0]), ("clone", "m", "n"), ("eq", "m", "n", "reflexive"),
                                      ("store", "n", base + b[1], b[0]), ("store", "m", base + c[1], c[0]), ("eq", "m", "n")] + loads("m") + loads("n")})
+            for far in (5 * PAGE + 3, 0, 2 * PAGE - 1):
+                for first in (True, False):
+                    pl = ([("store", "m", base, 32)] if first else []) + [("clone", "m", "n"), ("store", "n", far, 16), ("eq", "m", "n"), ("eq", "n", "m"),
+                                                                          ("clone", "n", "k"), ("eq", "n", "k", "reflexive"), ("eq", "k", "n", "reflexive"),
+                                                                          ("load", "m", far, 16), ("load", "n", far, 16)]
+                    out.append({"label": f"{tag}: clone then store only into the clone at {far:#x}" + (" (original non-empty)" if first else ""), "endian": endian, "backing": backing, "plan": pl})
             out.append({"label": f"{tag}: empty clone eq", "endian": endian, "backing": backing, "plan": [("clone", "m", "n"), ("eq", "m", "n", "reflexive")]})
             # windows at 0 and at the top of the address space
             out.append({"label": f"{tag}: window at 0", "endian": endian, "backing": backing,
